@@ -263,3 +263,11 @@ func vRawPK(k crypto.PubKey) []byte {
 }
 
 var _ = cid.Undef
+
+func vNewReplicaSecretStore(t testing.TB) secretstore.SecretStore {
+	ss, err := secretstore.NewInMemSecretStore(nil)
+	if err != nil {
+		t.Fatalf("harness: %v", err)
+	}
+	return ss
+}
